@@ -1,0 +1,26 @@
+//! C33: clock override and access to the last-timestamp cell of `pkarr::Timestamp::now`.
+use std::{cell::Cell, sync::atomic::Ordering};
+
+thread_local! {
+    static CLOCK: Cell<Option<u64>> = const { Cell::new(None) };
+}
+
+/// Sets (or clears) the microsecond clock reading `Timestamp::now` sees on this thread.
+pub fn set_clock(micros: Option<u64>) {
+    CLOCK.with(|c| c.set(micros));
+}
+
+/// The clock override of the calling thread.
+pub fn clock_override() -> Option<u64> {
+    CLOCK.with(|c| c.get())
+}
+
+/// Overwrites the process-wide last-timestamp cell (start of a test case).
+pub fn set_last(v: u64) {
+    crate::pkarr::verif_last_timestamp().store(v, Ordering::SeqCst);
+}
+
+/// Reads the process-wide last-timestamp cell.
+pub fn last() -> u64 {
+    crate::pkarr::verif_last_timestamp().load(Ordering::SeqCst)
+}
